@@ -555,6 +555,9 @@ pub(in crate::sql) fn reorder(mut pipeline: Vec<SqlTransform>) -> Vec<SqlTransfo
     use SqlTransform::Super;
     use Transform::*;
 
+    #[cfg(feature = "verif")]
+    let verif_input = serde_json::to_value(&pipeline).unwrap_or_default();
+
     // iter over Computes
     for i in 1..pipeline.len() {
         if !matches!(&pipeline[i], Super(Compute(_))) {
@@ -594,6 +597,12 @@ pub(in crate::sql) fn reorder(mut pipeline: Vec<SqlTransform>) -> Vec<SqlTransfo
             }
         }
     }
+    #[cfg(feature = "verif")]
+    crate::sql::verif_hooks::trace_event(serde_json::json!({
+        "event": "reorder",
+        "input": verif_input,
+        "output": pipeline,
+    }));
     pipeline
 }
 
